@@ -37,3 +37,46 @@ func (r *ShardResult) hist(name, key string, n int64) {
 	}
 	r.Hists[name][key] += n
 }
+
+// merge folds o into r (same-process combination of two engines).
+func (r *ShardResult) merge(o *ShardResult, prefix string) {
+	r.Findings = append(r.Findings, o.Findings...)
+	for k, v := range o.Counts {
+		switch k {
+		case "evaluations", "transitions", "traces_validated", "distinct_nontrivial":
+			r.Counts[k] += v
+		default:
+			r.Counts[prefix+k] += v
+		}
+	}
+	for k, v := range o.Maxes {
+		if v > r.Maxes[prefix+k] {
+			r.Maxes[prefix+k] = v
+		}
+	}
+	for k, v := range o.Mins {
+		r.Mins[prefix+k] = v
+	}
+	for k, v := range o.Sets {
+		if k == "states" || k == "nontrivial" {
+			for _, x := range v {
+				r.Sets[k] = append(r.Sets[k], prefix+x)
+			}
+		} else {
+			r.Sets[prefix+k] = append(r.Sets[prefix+k], v...)
+		}
+	}
+	for k, h := range o.Hists {
+		for kk, v := range h {
+			r.hist(prefix+k, kk, v)
+		}
+	}
+	r.Samples = append(r.Samples, o.Samples...)
+	r.Notes = append(r.Notes, o.Notes...)
+	if !o.Exhaustive {
+		r.Exhaustive = false
+	}
+	for k, v := range o.Bounds {
+		r.Bounds[prefix+k] = v
+	}
+}
